@@ -7,6 +7,8 @@ from .core import (Engine, SymNum, SymBool, PathAbort, Infeasible, Inconclusive,
                    And, Or, Not)
 
 VERIF = os.path.dirname(os.path.dirname(os.path.abspath(__file__)))
+# evidence / replay files of scratch runs against a mutated copy of the repository (bin/seedregress) go elsewhere
+OUTDIR = os.environ.get('VERIF_OUT', VERIF)
 MARGIN = Fraction(1, 1000)      # the properties' relative admissibility margin
 TOL = Fraction(1, 10 ** 7)      # absolute tolerance when comparing coordinates with the oracle
 
@@ -604,8 +606,8 @@ def finish(prop, tier, seed, results, t0, level_note, bounds, outside_claim, ass
             setattr(tot, k, getattr(tot, k) + v)
     funcs = sorted({f for r in results for f in r['functions']})
     paths = sum(r['paths'] for r in results)
-    os.makedirs(os.path.join(VERIF, 'replays'), exist_ok=True)
-    os.makedirs(os.path.join(VERIF, 'evidence'), exist_ok=True)
+    os.makedirs(os.path.join(OUTDIR, 'replays'), exist_ok=True)
+    os.makedirs(os.path.join(OUTDIR, 'evidence'), exist_ok=True)
     lines = []
     # replay files for new violations (deduplicated by signature)
     seen = set()
@@ -614,7 +616,7 @@ def finish(prop, tier, seed, results, t0, level_note, bounds, outside_claim, ass
             continue
         seen.add(v['sig'])
         h = hashlib.sha1((v['sig'] + json.dumps(v.get('params', {}), sort_keys=True)).encode()).hexdigest()[:10]
-        path = os.path.join(VERIF, 'replays', '%s_%s.json' % (prop, h))
+        path = os.path.join(OUTDIR, 'replays', '%s_%s.json' % (prop, h))
         json.dump(dict(property=prop, family=v.get('family'), params=v.get('params'), sig=v['sig'], detail=v.get('detail'),
                        tier=tier, seed=seed, kind=v.get('kind', 'family')), open(path, 'w'), indent=1)
         lines.append('VIOLATION property=%s replay=%s' % (prop, path))
@@ -667,7 +669,7 @@ def finish(prop, tier, seed, results, t0, level_note, bounds, outside_claim, ass
         cov.update(extra.get('coverage', {}))
     ev = dict(property_id=prop, tier=tier, seed=seed, level='model_checking', coverage=cov,
               assumptions=assumptions, wall_s=round(time.time() - t0, 2), violations=len(viol_new))
-    json.dump(ev, open(os.path.join(VERIF, 'evidence', '%s.json' % prop), 'w'), indent=1, default=str)
+    json.dump(ev, open(os.path.join(OUTDIR, 'evidence', '%s.json' % prop), 'w'), indent=1, default=str)
     for l in lines:
         print(l)
     print('%s tier=%s families=%d decided=%d paths=%d queries=%d (unsat %d, sat %d, unknown %d) solver_s=%.1f validated=%d wall=%.1fs' % (
